@@ -69,7 +69,7 @@ class HBC(Harness):
         pat = p["pat"]
         spell = p.get("spell", {})
         cons = p.get("cons")
-        rng = RngStub(eng)
+        rng = RngStub(eng, functional="A" if p.get("twice") else None)
         eng.rng = rng
         rb = Rebinder(eng.concrete, stubs=stubs())
         B = rb.cls(badsmod.BADS)
@@ -189,6 +189,18 @@ class HBC(Harness):
                     for d in range(D):
                         out.ob("constraint_argument_in_hard_box", O.And(O.le(olb[0, d], Xq[r, d]), O.le(Xq[r, d], oub[0, d])))
         out.ob("logger_uses_instance_transformer", bads.function_logger.variable_transformer is marker)
+        if p.get("twice"):
+            # 2-safety: the same construction from a different prior generator state draws the same starting point
+            rng2 = RngStub(eng, functional="B")
+            eng.rng = rng2
+            bads2 = B(fun, args["x0"], args["lb"], args["ub"], args["plb"], args["pub"], non_box_cons=None, options=dict(user_opts) if user_opts else None)
+            eng.rng = rng
+            seeded = "random_seed" in user_opts
+            same_x0 = O.rows_eq(np.asarray(_raw(bads2.x0)).ravel(), X0.ravel(), 0.0)
+            if seeded:
+                out.ob("seeded_x0_draw_independent_of_prior_rng_state", same_x0)
+            drew = any(d[0] == "uniform" for d in rng.draws)
+            out.ob("rng_used_only_when_x0_missing", drew == (x0v is None or any(isinstance(v, float) and v != v for v in x0v)))
         if p.get("seed") == "sym":
             out.ob("seed_recorded", O.eq(bads.optim_state["random_seed"], user_opts["random_seed"], 0.0))
             first = rng.draws[0] if rng.draws else None
